@@ -51,10 +51,11 @@ MutsAt(c, k, N) ==
 \* bytes that carry structure (length fields, type codes): the layout of a message
 Skel(c, k, N) ==
   LET b == Flights[c].msgs[k]
-      P == UNION { (IF N[j].ln > 0 THEN N[j].lp .. (N[j].lp + N[j].ln - 1) ELSE {})
-                   \cup (IF N[j].tn > 0 THEN N[j].tp .. (N[j].tp + N[j].tn - 1) ELSE {}) : j \in DOMAIN N }
-      pos == SetToSeq1(P)
-  IN [case |-> Flights[c].case, k |-> k - 1, len |-> Len(b), pos |-> pos, val |-> [j \in DOMAIN pos |-> b[pos[j]]]]
+      PL == UNION { (IF N[j].ln > 0 THEN N[j].lp .. (N[j].lp + N[j].ln - 1) ELSE {}) : j \in DOMAIN N }
+      PT == UNION { (IF N[j].tn > 0 THEN N[j].tp .. (N[j].tp + N[j].tn - 1) ELSE {}) : j \in DOMAIN N }
+      pos == SetToSeq1(PL \cup PT)
+  IN [case |-> Flights[c].case, k |-> k - 1, len |-> Len(b), pos |-> pos, val |-> [j \in DOMAIN pos |-> b[pos[j]]],
+      typ |-> [j \in DOMAIN pos |-> IF pos[j] \in PL THEN 0 ELSE 1]]
 
 \* how the harness must deliver the mutation.  The first ClientHello of a parrot differs from connection to
 \* connection (GREASE, shuffling), so the CAPTURED hello is sent in place of the live one ("replace"); every
